@@ -204,7 +204,13 @@ func c07Probe(kind string, g, x int) *c07Obs {
 		pp := z.Preprocess(func(in int, c z.Ctx) (int, error) { return 0, c.Issue().SetMessage("from preprocess") }, z.Int())
 		obsList(o, pp.Parse(x, &n))
 		n = 3
-		ppv := z.Preprocess(func(in *int, c z.Ctx) (int, error) { return 0, c.Issue().SetMessage("from preprocess") }, z.Int())
+		// (in Validate the message is the error's text, and a ZogIssue's text contains the address
+		// of its value: the fresh issue is observed directly and a plain error is returned)
+		ppv := z.Preprocess(func(in *int, c z.Ctx) (int, error) {
+			iss := c.Issue()
+			o.add("fresh", iss.Code, iss.Path, iss.Message, len(iss.Params), iss.Err == nil)
+			return 0, errors.New("from preprocess")
+		}, z.Int())
 		obsList(o, ppv.Validate(&n))
 		var ds struct{ A string }
 		obsMap(o, z.Struct(z.Schema{"a": z.String().PostTransform(func(val any, c z.Ctx) error { return errors.New("rejected") })}).Parse(map[string]any{"a": "abc"}, &ds))
